@@ -198,3 +198,40 @@ pub fn havoc_tf() -> TwoFloat {
     let l = any_f64();
     tf(h, l)
 }
+
+// ---------------------------------------------------------------- operator impls as UFs
+// paths: <&twofloat::TwoFloat as core::ops::Mul<&twofloat::TwoFloat>>::mul etc.
+uf_tf!(T_ADD_TT, 4, fn uf_add_tt<'a, 'b>(x: &'a TwoFloat, y: &'b TwoFloat) -> TwoFloat, key = k4(*x, *y));
+uf_tf!(T_SUB_TT, 4, fn uf_sub_tt<'a, 'b>(x: &'a TwoFloat, y: &'b TwoFloat) -> TwoFloat, key = k4(*x, *y));
+uf_tf!(T_MUL_TT, 4, fn uf_mul_tt<'a, 'b>(x: &'a TwoFloat, y: &'b TwoFloat) -> TwoFloat, key = k4(*x, *y));
+uf_tf!(T_DIV_TT, 4, fn uf_div_tt<'a, 'b>(x: &'a TwoFloat, y: &'b TwoFloat) -> TwoFloat, key = k4(*x, *y));
+uf_tf!(T_REM_TT, 4, fn uf_rem_tt<'a, 'b>(x: &'a TwoFloat, y: &'b TwoFloat) -> TwoFloat, key = k4(*x, *y));
+uf_tf!(T_ADD_TF, 3, fn uf_add_tf<'a, 'b>(x: &'a TwoFloat, y: &'b f64) -> TwoFloat, key = k3(*x, *y));
+uf_tf!(T_SUB_TF, 3, fn uf_sub_tf<'a, 'b>(x: &'a TwoFloat, y: &'b f64) -> TwoFloat, key = k3(*x, *y));
+uf_tf!(T_MUL_TF, 3, fn uf_mul_tf<'a, 'b>(x: &'a TwoFloat, y: &'b f64) -> TwoFloat, key = k3(*x, *y));
+uf_tf!(T_DIV_TF, 3, fn uf_div_tf<'a, 'b>(x: &'a TwoFloat, y: &'b f64) -> TwoFloat, key = k3(*x, *y));
+uf_tf!(T_REM_TF, 3, fn uf_rem_tf<'a, 'b>(x: &'a TwoFloat, y: &'b f64) -> TwoFloat, key = k3(*x, *y));
+uf_tf!(T_ADD_FT, 3, fn uf_add_ft<'a, 'b>(y: &'a f64, x: &'b TwoFloat) -> TwoFloat, key = k3(*x, *y));
+uf_tf!(T_SUB_FT, 3, fn uf_sub_ft<'a, 'b>(y: &'a f64, x: &'b TwoFloat) -> TwoFloat, key = k3(*x, *y));
+uf_tf!(T_MUL_FT, 3, fn uf_mul_ft<'a, 'b>(y: &'a f64, x: &'b TwoFloat) -> TwoFloat, key = k3(*x, *y));
+uf_tf!(T_DIV_FT, 3, fn uf_div_ft<'a, 'b>(y: &'a f64, x: &'b TwoFloat) -> TwoFloat, key = k3(*x, *y));
+uf_tf!(T_REM_FT, 3, fn uf_rem_ft<'a, 'b>(y: &'a f64, x: &'b TwoFloat) -> TwoFloat, key = k3(*x, *y));
+
+// unary inherent functions as UFs (value receivers)
+uf_tf!(T_U1, 2, fn uf_u1<>(x: TwoFloat) -> TwoFloat, key = k2(x));
+uf_tf!(T_U2, 2, fn uf_u2<>(x: TwoFloat) -> TwoFloat, key = k2(x));
+uf_tf!(T_U3, 2, fn uf_u3<>(x: TwoFloat) -> TwoFloat, key = k2(x));
+uf_tf!(T_U4, 2, fn uf_u4<>(x: TwoFloat) -> TwoFloat, key = k2(x));
+// binary inherent functions as UFs
+uf_tf!(T_B1, 4, fn uf_b1<>(x: TwoFloat, y: TwoFloat) -> TwoFloat, key = k4(x, y));
+
+/// number of recorded calls / n-th recorded call of a table (recording-stub queries)
+#[macro_export]
+macro_rules! uf_calls {
+    ($tab:ident) => {
+        #[allow(static_mut_refs)]
+        unsafe {
+            $crate::uf::$tab.n
+        }
+    };
+}
